@@ -65,6 +65,12 @@ var PredLib = []Pred{
 	{"if matchLength % 2 == 0 then return true end return false", func(s string) bool { return len(s)%2 == 0 }},
 	{"set n to matchLength * 2 return n >= 4", func(s string) bool { return len(s)*2 >= 4 }},
 	{"return match < 'b'", func(s string) bool { return s < "b" }},
+	// a predicate that ends without executing `return` accepts, whatever it evaluated last
+	{"if matchLength > 1 then return false end", func(s string) bool { return len(s) <= 1 }},
+	{"set n to matchLength - 2", func(s string) bool { return true }},
+	{"if match == 'a' then return true end set k to 0", func(s string) bool { return true }},
+	{"if matchLength > 2 then return false else set e to '' end", func(s string) bool { return len(s) <= 2 }},
+	{"loop break end if false then return false end", func(s string) bool { return true }},
 }
 
 func (g *PG) lit() Lit {
